@@ -3268,4 +3268,55 @@ Proof using Type. clear_sec.
   - induction IH as [|x r Hx Hr IHr]; [exact I|]. destruct H as [H1 H2]. split; [apply Hx; exact H1|apply IHr; exact H2].
 Qed.
 
+
+Lemma gen_hlen_threshold h body : zlen body < SZ ->
+  (s_hlen (fst (gen_sec_header h body)) = 8 <-> 16777215 <= zlen body + 4 + tslen (s_gd h)) /\
+  (s_hlen (fst (gen_sec_header h body)) = 4 <-> zlen body + 4 + tslen (s_gd h) < 16777215).
+Proof using Type. clear_sec.
+  intros Hz. pose proof (zlen_nonneg body) as Hn. unfold SZ in Hz.
+  unfold gen_sec_header. cbn [fst s_hlen].
+  set (hl0 := 4 + match s_gd h with Some _ => 20 | None => 0 end).
+  assert (Hhl0 : hl0 = 4 + tslen (s_gd h)) by (unfold hl0, tslen; destruct (s_gd h); reflexivity).
+  assert (Hts : tslen (s_gd h) = 0 \/ tslen (s_gd h) = 20) by (unfold tslen; destruct (s_gd h); auto).
+  rewrite (Z.mod_small (zlen body + hl0)) by (unfold U32; change (2 ^ 32) with 4294967296; lia).
+  destruct (16777215 <=? zlen body + hl0) eqn:E.
+  - rewrite (Z.mod_small (zlen body + hl0 + 4)) by (unfold U32; change (2 ^ 32) with 4294967296; lia).
+    replace (16777215 <=? zlen body + hl0 + 4) with true by lia. split; split; intros; lia.
+  - rewrite E. split; split; intros; lia.
+Qed.
+
+(* ---------- the DataOffset GenSecHeader writes is where the payload starts ---------- *)
+
+(* for EVERY payload size below 4 GiB, in particular in the branch where the section reaches 0xFFFFFF
+   bytes and gets the 8-byte common header: the DataOffset kept in the node and written into the
+   bytes (little-endian at common header + 16) is the offset at which the payload begins *)
+Theorem gen_dataoff_is_payload_start h g body h' nb :
+  s_gd h = Some g -> zlen (gd_guid g) = 16 -> zlen body < SZ -> gen_sec_header h body = (h', nb) ->
+  exists g', s_gd h' = Some g' /\
+    gd_dataoff g' = s_hlen h' + 20 /\
+    rd (s_hlen h' + 16) 2 nb = gd_dataoff g' /\
+    zskipn (gd_dataoff g') nb = body /\
+    (s_hlen h' = 8 <-> 16777215 <= zlen body + 24).
+Proof using Type. clear_sec.
+  intros Hg Hg16 Hz Hgen.
+  pose proof (proj1 (gen_hlen_threshold h body Hz)) as T. rewrite Hgen in T. cbn [fst] in T. rewrite Hg in T. cbn [tslen] in T.
+  destruct (gen_shape h body Hz) as (chdr & hl & size3 & Hhl & Hlen & Hgen' & _ & _ & Hbig).
+  rewrite Hgen, Hg in Hgen'. rewrite Hg in Hbig. cbn [tslen regd tshdr gd_guid gd_dataoff gd_attrs] in Hgen', Hbig.
+  pose proof (f_equal fst Hgen') as Eh. pose proof (f_equal snd Hgen') as Eb.
+  cbn [fst snd] in Eh, Eb. subst h' nb. cbn [s_gd s_hlen].
+  eexists. split; [reflexivity|]. cbn [gd_dataoff]. split; [reflexivity|]. split; [|split].
+  - replace (chdr ++ (gd_guid g ++ le_enc 2 (hl + 20) ++ le_enc 2 (gd_attrs g)) ++ body)
+      with ((chdr ++ gd_guid g) ++ le_enc 2 (hl + 20) ++ (le_enc 2 (gd_attrs g) ++ body))
+      by (rewrite <- !app_assoc; reflexivity).
+    replace (hl + 16) with (zlen (chdr ++ gd_guid g)) by (rewrite zlen_app; lia).
+    rewrite rd_at by apply le2. apply le_dec_enc. change (256 ^ Z.of_nat 2) with 65536. lia.
+  - replace (chdr ++ (gd_guid g ++ le_enc 2 (hl + 20) ++ le_enc 2 (gd_attrs g)) ++ body)
+      with ((chdr ++ gd_guid g ++ le_enc 2 (hl + 20) ++ le_enc 2 (gd_attrs g)) ++ body)
+      by (rewrite <- !app_assoc; reflexivity).
+    set (A := chdr ++ gd_guid g ++ le_enc 2 (hl + 20) ++ le_enc 2 (gd_attrs g)).
+    assert (LA : zlen A = hl + 20) by (unfold A; rewrite !zlen_app, !le2; lia).
+    rewrite <- LA. apply zskipn_app_exact.
+  - cbn [s_hlen] in T. rewrite T. lia.
+Qed.
+
 End Codec.
